@@ -334,8 +334,11 @@ def task_section(pr, repo):
 def run(pr, repo):
     from . import C10
     # the profile is reported AT the grid values min + i*step that make_grid yields (its contract: C10-MG)
+    from . import C14
     pr.parallel([(task_group_charge, ()), (task_container_charge, ()), (task_profile, ()), (task_pi, ()),
-                 (task_section, ()), (C10.task_grid, ())])
+                 (task_section, ()), (C10.task_grid, ()),
+                 # the reported (averaged) container holds every titratable group - also one discarded due to coupling (C14-UC)
+                 (C14.task_init_group, ())])
     pr.assumptions.append('|q*(pK-pH)| small enough that 10**x does not overflow (x < 308)')
     bounded(pr)
 
@@ -383,7 +386,11 @@ def bounded(pr):
                         break
                 if bad and len(viol) < 3:
                     viol.append({'what': '%s %s grid %r: %s' % (name, opts, grid, bad), 'replay': None})
-            for window, prec in (((0.0, 14.0), 1e-4), ((2.0, 12.0), 1e-2), ((0.0, 14.0), 1e-10), ((-10.0, 30.0), 1e-9)):
+            # also windows whose mid-point lies between the two isoelectric points (first bracket decision differs between the curves)
+            pf0, pu0 = mol.get_pi('AVR', grid=(0.0, 14.0), precision=1e-6)
+            mid = (pf0 + pu0) / 2.0
+            between = [((mid - 3.0, mid + 3.0), 1e-4), ((mid - 0.8, mid + 0.8), 1e-4)] if abs(pf0 - pu0) > 1e-3 else []
+            for window, prec in [((0.0, 14.0), 1e-4), ((2.0, 12.0), 1e-2), ((0.0, 14.0), 1e-10), ((-10.0, 30.0), 1e-9)] + between:
                 ev += 1
                 pif, piu = mol.get_pi('AVR', grid=window, precision=prec)
                 for x, folded, nm in ((pif, True, 'folded'), (piu, False, 'unfolded')):
